@@ -377,3 +377,146 @@ pub fn symbolic_proof() -> Proof {
     Proof { signers: soroban_sdk::Vec::abstract_symbolic(), threshold: kani::any(), nonce: BytesN::symbolic() }
 }
 
+
+// ------------------------------------------------------------------------------------------------
+// Kani companions of the Verus contracts on validate_proof / validate_signatures.  The Verus side
+// proves them for signer sets of any size on the mechanically extracted text; it is "undecided"
+// whenever a change gives the functions a shape the extraction does not support (a second loop, a
+// `continue`, a new host call).  These harnesses decide the same clauses on the unmodified source
+// under Kani — validate_proof for ANY size (its two callees that look into the signer list are
+// replaced by contracts), validate_signatures BOUNDED to 3 proof entries.
+// ------------------------------------------------------------------------------------------------
+/// contract stub of `Proof::weighted_signers` (proved: Verus C01.weighted_signers.*, Kani
+/// c01_weighted_signers_n3_bounded): an injective function of the proof's signer list, keeping
+/// threshold and nonce
+pub fn weighted_signers_contract(p: &Proof) -> WeightedSigners {
+    let (len, id) = match p.signers.abs {
+        Some(x) => x,
+        None => shim::harness_bug("weighted_signers stub: concrete proof"),
+    };
+    let mut w = Words::new();
+    w.push(0x5167_5E75);
+    w.push(id);
+    let mut v: soroban_sdk::Vec<WeightedSigner> = soroban_sdk::Vec::abstract_symbolic();
+    v.abs = Some((len, shim::intern(w)));
+    WeightedSigners { signers: v, threshold: p.threshold, nonce: p.nonce.clone() }
+}
+pub static mut VS_RESULT: Option<bool> = None;
+/// contract stub of `validate_signatures`: an uninterpreted verdict about (digest, proof); read-only
+pub fn validate_signatures_contract(_env: &Env, msg_hash: soroban_sdk::crypto::Hash<32>, proof: Proof) -> bool {
+    shim::log_internal("auth::validate_signatures", Words::of(&(msg_hash.to_bytes(), proof)));
+    let r: bool = kani::any();
+    unsafe { VS_RESULT = Some(r) };
+    r
+}
+
+#[kani::proof]
+#[kani::stub(crate::types::Proof::weighted_signers, weighted_signers_contract)]
+#[kani::stub(validate_signatures, validate_signatures_contract)]
+fn c08_validate_proof() {
+    let env = Env::default();
+    let _h = shim::fresh_host();
+    let proof = symbolic_proof();
+    let dh: BytesN<32> = BytesN::symbolic();
+
+    let r = validate_proof(&env, &dh, proof.clone());
+
+    let hsh = spec_signers_hash(&env, &weighted_signers_contract(&proof));
+    let e: Option<u64> = pers().pre(&DataKey::EpochBySignersHash(hsh));
+    let cur: Option<u64> = inst().pre(&DataKey::Epoch);
+    let ret: Option<u64> = inst().pre(&DataKey::PreviousSignerRetention);
+    let vs = unsafe { VS_RESULT };
+    soroban_sdk::obl!(shim::no_external_effects() && shim::n_auth() == 0, "OBL C01.vp_read_only: checking a proof changes nothing (no write in any storage class, no event, no call)");
+    match r {
+        Ok(latest) => {
+            soroban_sdk::obl!(
+                matches!((e, cur, ret), (Some(e), Some(c), Some(rt)) if e <= c && c - e <= rt),
+                "OBL C08.vp_retention: accepted only if the proof's signer set is registered and at most `retention` newer sets have been installed"
+            );
+            soroban_sdk::obl!(matches!((e, cur), (Some(e), Some(c)) if latest == (e == c)), "OBL C08.vp_latest_flag: the flag is true exactly for the newest set");
+            let digest: BytesN<32> = message_hash_to_sign(&env, hsh, &dh).to_bytes();
+            soroban_sdk::obl!(
+                vs == Some(true) && shim::internal_called("auth::validate_signatures", &(digest, proof.clone())),
+                "OBL C01.vp_signatures_checked: accepted only if validate_signatures accepted exactly this proof over the digest of (domain, this signer set, this data hash)"
+            );
+            kani::cover!(latest, "COVER c08_vp ok latest");
+            kani::cover!(!latest, "COVER c08_vp ok retained");
+        }
+        Err(err) => {
+            soroban_sdk::obl!(
+                match (e, cur, ret) {
+                    (None, _, _) => err == ContractError::InvalidSignersHash,
+                    (Some(e), Some(c), Some(rt)) => (e <= c && c - e > rt && err == ContractError::OutdatedSigners) || (e <= c && c - e <= rt && vs == Some(false) && err == ContractError::InvalidSignatures),
+                    _ => false,
+                },
+                "OBL C08.vp_refused_only_when: a proof is refused only for an unregistered set, a set older than the retention window, or insufficient signatures — a retained set with sufficient signatures is never refused"
+            );
+            kani::cover!(err == ContractError::OutdatedSigners, "COVER c08_vp outdated");
+            kani::cover!(err == ContractError::InvalidSignatures, "COVER c08_vp bad signatures");
+        }
+    }
+}
+
+/// one case per pattern of signed / unsigned entries (concrete pattern, symbolic keys, weights,
+/// signatures, threshold and digest): the union of the patterns of a length is every proof of that length
+fn validate_signatures_case(pattern: &[bool]) {
+    let env = Env::default();
+    let _h = shim::fresh_host();
+    let n = pattern.len();
+    let mut v: soroban_sdk::Vec<ProofSigner> = soroban_sdk::Vec::new(&env);
+    let mut i = 0;
+    while i < n {
+        let signature = if pattern[i] { ProofSignature::Signed(BytesN::symbolic()) } else { ProofSignature::Unsigned };
+        v.push_back(ProofSigner { signer: <WeightedSigner as Wordy>::symbolic(), signature });
+        i += 1;
+    }
+    let proof = Proof { signers: v, threshold: kani::any(), nonce: BytesN::symbolic() };
+    let digest: soroban_sdk::crypto::Hash<32> = <soroban_sdk::crypto::Hash<32> as Wordy>::symbolic();
+
+    let r = validate_signatures(&env, digest, proof.clone());
+
+    // weight of the entries that carry a VALID signature over this digest (oracle of axiom A-ED25519)
+    let digest_bytes: BytesN<32> = digest.to_bytes();
+    let msg: &Bytes = digest_bytes.as_ref();
+    let mut valid_weight: u128 = 0;
+    let mut i = 0;
+    while i < n {
+        if let Some(ProofSigner { signer, signature: ProofSignature::Signed(sig) }) = proof.signers.get(i as u32) {
+            if shim::sig_valid(&signer.signer, msg, &sig) {
+                valid_weight = valid_weight.saturating_add(signer.weight);
+            }
+        }
+        i += 1;
+    }
+    soroban_sdk::obl!(
+        !r || valid_weight >= proof.threshold,
+        "OBL C01.validate_signatures_sound_bounded: true only if the entries carrying a valid signature over this digest weigh at least the threshold (every counted signature was verified)"
+    );
+    soroban_sdk::obl!(shim::no_effects(), "OBL C01.validate_signatures_pure_bounded");
+    kani::cover!(r, "COVER c01_vs accepted");
+    kani::cover!(!r, "COVER c01_vs rejected");
+}
+macro_rules! vs_case {
+    ($name:ident, $pat:expr) => {
+        // the unwinding bound only matters when a change gives the function a loop whose trip count the
+        // model checker cannot fold to a constant (it is above every table size of the shim; unwinding
+        // assertions stay on, so an insufficient bound is "undecided", never a wrong verdict)
+        #[kani::proof]
+        #[kani::unwind(26)]
+        fn $name() {
+            validate_signatures_case(&$pat);
+        }
+    };
+}
+vs_case!(c01_validate_signatures_ss_bounded, [true, true]);
+vs_case!(c01_validate_signatures_su_bounded, [true, false]);
+vs_case!(c01_validate_signatures_us_bounded, [false, true]);
+vs_case!(c01_validate_signatures_uu_bounded, [false, false]);
+vs_case!(c01_validate_signatures_sss_bounded, [true, true, true]);
+vs_case!(c01_validate_signatures_ssu_bounded, [true, true, false]);
+vs_case!(c01_validate_signatures_sus_bounded, [true, false, true]);
+vs_case!(c01_validate_signatures_suu_bounded, [true, false, false]);
+vs_case!(c01_validate_signatures_uss_bounded, [false, true, true]);
+vs_case!(c01_validate_signatures_usu_bounded, [false, true, false]);
+vs_case!(c01_validate_signatures_uus_bounded, [false, false, true]);
+vs_case!(c01_validate_signatures_uuu_bounded, [false, false, false]);
